@@ -155,13 +155,19 @@ def has_prefix_sibling(sim, table, name):
 def run_history(sim, hseed, res, thorough=False):
     # pylint: disable=too-many-locals,too-many-branches,too-many-statements
     rng = random.Random(hseed)
-    schema = dbsim.Schema(rng, n_algs=rng.choice([3, 4, 5, 6]))
+    # wide histories: 11+ algorithms, few runs and many writes, so that catalogue ids reach two digits (id 1 is a
+    # decimal prefix of ids 10..19) while the entries share run and target (seed C08-5 was missed without them)
+    wide = rng.random() < 0.3
+    schema = dbsim.Schema(rng, n_algs=rng.choice([3, 4, 5, 6]) if not wide else rng.choice([12, 14, 16]), wide=wide)
     targets = rng.sample(['T', 'T1', 'T10', 'Tx'], 3)
     sim.fresh(targets[:2])
     writers = {}
     bad = []
     trace = []
     nops = rng.choice([12, 20, 35]) if not thorough else rng.choice([20, 35, 70])
+    if wide:
+        nops = rng.choice([50, 70])
+        res.count('wide_histories')
     import dawgie.pl.version  # pylint: disable=import-outside-toplevel
 
     for i in range(nops):
@@ -172,6 +178,8 @@ def run_history(sim, hseed, res, thorough=False):
         try:
             if k < 0.45 or not sim.model:
                 run = rng.choice([1, 2, 3, 4, 5, 9, 10, 11, 12, 40, 99, 100, 101, 1000])  # widths differ: keys are strings
+                if wide:
+                    run = rng.choice([2, 2, 2, 10, 11])
                 a = schema.algs[(tk, an)]
                 contents = {(svn, vn): dbsim.payload(rng, sim.next_uid('c08')) for svn, s in a['svs'].items() for vn in s['vals']}
                 op = ['update', tk, an, tg, run]
